@@ -292,6 +292,9 @@ func (e *EvalBinaryNode) evalRetry(scope *Scope, executionState ExecutionState, 
 			// redefine the evaluation fn
 			e.evaluationFn = e.lookupEvaluationFn()
 			if e.evaluationFn == nil {
+				// There is no evaluation function for the types of this point: that is an
+				// error for this point only, the types are resolved again for the next one.
+				e.evaluationFn = e.evaluateDynamicNode
 				return boolFalseResultContainer, err
 			}
 
@@ -327,7 +330,12 @@ func (e *EvalBinaryNode) evaluateDynamicNode(scope *Scope, executionState Execut
 	e.leftType = leftType
 	e.rightType = rightType
 
-	e.evaluationFn = e.lookupEvaluationFn()
+	evaluationFn := e.lookupEvaluationFn()
+	if evaluationFn == nil {
+		// Stay dynamic, a later point may carry types the operator accepts.
+		return boolFalseResultContainer, &ErrSide{error: e.determineError(scope, executionState)}
+	}
+	e.evaluationFn = evaluationFn
 
 	return e.eval(scope, executionState)
 }
